@@ -1,16 +1,35 @@
 // Self-test of the simulator: MPI matching/request/collective semantics (each rule measured against
 // boost::mpi 1.83 / Open MPI 4.1.4, DESIGN.md §2.3), the detectors, SimGOMP and determinism.
 // usage: simtest [nseeds]   -> prints one line per scenario, exit 0 iff all pass.
+// With -DREAL_MPI the same scenario bodies are compiled against the REAL boost::mpi / Open MPI (no shadow include path)
+// and run one scenario per mpiexec launch: tools/fidelity_realmpi.sh uses that to keep SimMPI's rules honest.
+#ifndef REAL_MPI
 #define HC_MAIN_TU
+#endif
 #include <boost/mpi.hpp>
+#include <boost/serialization/vector.hpp>
+#include <boost/serialization/string.hpp>
+#include <boost/serialization/complex.hpp>
 #include "common.hpp"
 #include <complex>
 #include <set>
 #include <omp.h>
 
+#ifdef REAL_MPI
+namespace shim { inline void work(int) {} inline void note(int) {} inline int omp_team() { return omp_get_max_threads(); } }
+#else
+namespace shim { inline void work(int us) { sim::cur()->work(us); } inline void note(int v) { sim::cur()->note(v); } inline int omp_team() { return sim::cur()->opt().omp_threads; } }
+#endif
+
 namespace mpi = boost::mpi;
 typedef std::function<void(int, std::vector<std::string>&)> Body; // rank body; pushes failure messages
 
+struct Scenario {
+    std::string name; int P; std::string expect; Body body;
+    std::function<void(sim::Options&)> tweak;
+};
+
+#ifndef REAL_MPI
 static sim::Options random_opts(int P, uint64_t seed) {
     hc::Cfg c; hc::Rng r(seed * 7919 + 13);
     hc::sim_defaults_from_seed(c, r, P);
@@ -18,10 +37,6 @@ static sim::Options random_opts(int P, uint64_t seed) {
     return hc::sim_options(c, P, seed);
 }
 
-struct Scenario {
-    std::string name; int P; std::string expect; Body body;
-    std::function<void(sim::Options&)> tweak;
-};
 
 static int g_fail = 0;
 
@@ -55,10 +70,12 @@ static void run_scenario(const Scenario& s, int nseeds) {
     if (!ok) g_fail++;
 }
 
+#endif // !REAL_MPI
+
 #define CHECK(c) do { if (!(c)) msgs.push_back(std::string("rank ") + std::to_string(rank) + ": " #c " failed (line " + std::to_string(__LINE__) + ")"); } while (0)
 
 int main(int argc, char** argv) {
-    int nseeds = argc > 1 ? atoi(argv[1]) : 60;
+    int nseeds = argc > 1 ? atoi(argv[1]) : 60; (void)nseeds;
     std::vector<Scenario> S;
 
     S.push_back({"posting-order wildcard first", 2, "ok", [](int rank, std::vector<std::string>& msgs) {
@@ -177,14 +194,30 @@ int main(int argc, char** argv) {
         #pragma omp parallel for
         for (int i = 0; i < n; i++) { hit[i]++; if (omp_get_num_threads() > maxt) maxt = omp_get_num_threads(); }
         for (int i = 0; i < n; i++) CHECK(hit[i] == 1);
-        CHECK(maxt == sim::cur()->opt().omp_threads); CHECK(omp_get_num_threads() == 1);
+        CHECK(maxt == shim::omp_team()); CHECK(omp_get_num_threads() == 1);
         c.barrier();
     }, nullptr});
     S.push_back({"work() varies completion order", 4, "ok", [](int rank, std::vector<std::string>& msgs) {
-        mpi::communicator c; sim::cur()->work(10); int v = rank; if (rank) c.send(0, 0, v); else for (int i = 1; i < 4; i++) { c.recv(mpi::any_source, 0, v); sim::cur()->note(v); }
+        mpi::communicator c; shim::work(10); int v = rank; if (rank) c.send(0, 0, v); else for (int i = 1; i < 4; i++) { c.recv(mpi::any_source, 0, v); shim::note(v); }
     }, nullptr});
 
+#ifdef REAL_MPI
+    // usage: simtest_real --list | simtest_real <k>   (launched with mpiexec -np P for scenario k)
+    if (argc > 1 && std::string(argv[1]) == "--list") { for (size_t k = 0; k < S.size(); k++) if (S[k].expect == "ok") printf("%zu %d %s\n", k, S[k].P, S[k].name.c_str()); return 0; }
+    mpi::environment env(argc, argv);
+    mpi::communicator world;
+    size_t k = argc > 1 ? (size_t)atoi(argv[1]) : 0;
+    if (k >= S.size() || world.size() != S[k].P) { if (!world.rank()) printf("FAIL bad scenario / rank count\n"); return 2; }
+    std::vector<std::string> msgs;
+    S[k].body(world.rank(), msgs);
+    int bad = (int)msgs.size(), total = 0;
+    mpi::all_reduce(world, bad, total, std::plus<int>());
+    for (auto& m : msgs) fprintf(stderr, "%s\n", m.c_str());
+    if (!world.rank()) printf("%s real-MPI %-34s P=%d\n", total ? "FAIL" : "PASS", S[k].name.c_str(), S[k].P);
+    return total ? 1 : 0;
+#else
     for (auto& s : S) run_scenario(s, nseeds);
     printf("%s: %d scenario(s) failed\n", g_fail ? "SIMTEST FAILED" : "SIMTEST OK", g_fail);
     return g_fail ? 1 : 0;
+#endif
 }
